@@ -15,7 +15,8 @@
     bin/check C01 (engine fmt). *)
 From Coq Require Import NArith List Bool.
 From KdV Require Import Fmt.Codec Fmt.CodecProofs Fmt.Rle Fmt.RleProofs
-     Fmt.PfnModel Fmt.BitmapSpec Fmt.ImageSpec Fmt.DiskdumpModel Fmt.DiskdumpSpec Fmt.DiskdumpProofs.
+     Fmt.PfnModel Fmt.BitmapSpec Fmt.ImageSpec Fmt.DiskdumpModel Fmt.DiskdumpSpec Fmt.DiskdumpProofs
+     Fmt.S390Model Fmt.S390Spec Fmt.S390Proofs.
 Import ListNotations.
 Local Open Scope N_scope.
 
@@ -110,6 +111,22 @@ Theorem C01_binary_search_is_first_match : forall rs p,
 Proof. exact PfnProofs.find_pfn_region_lin. Qed.
 Print Assumptions C01_binary_search_is_first_match.
 
+(** * s390 stand-alone dumps *)
+
+(** full statement for this format: every memory (list of pages), every page
+    size 2^12..2^18, both architectures, any header size / time stamps: the
+    dump opens with the geometry the file encodes, every page frame below
+    [num_pages] reads as the page, every other one as NODATA *)
+Theorem C01_s390_roundtrip : forall l pages,
+  s3_wf l pages ->
+  exists st, s3_open (read_files [encode_s390 l pages]) 1 = Ok st /\
+    s3_page_size st = s3l_page_size l /\ s3_max_pfn st = N.of_nat (length pages) /\
+    s3_ptr_size st = (if s3l_arch64 l then 8 else 4) /\
+    forall pfn, fst (s3_get_page (read_files [encode_s390 l pages]) st (pfn * s3l_page_size l))
+                = spec_s390_page pages pfn.
+Proof. exact s390_roundtrip. Qed.
+Print Assumptions C01_s390_roundtrip.
+
 (** * the hypotheses are satisfiable *)
 
 Definition ex_layout : dd_layout :=
@@ -181,6 +198,19 @@ Example C01_nonvacuous_diskdump :
    | Err _ => False
    end).
 Proof. vm_compute. repeat split; reflexivity. Qed.
+
+Example C01_nonvacuous_s390 :
+  s3_wf {| s3l_page_size := 4096; s3l_arch64 := true; s3l_hdr_size := 4096; s3l_tod := 5;
+           s3l_end_tod := 6; s3l_version := 5; s3l_cpu_id := 1 |} [ex_page 1; ex_page 2].
+Proof.
+  constructor; cbn.
+  - exists 12. split; [split; discriminate | reflexivity].
+  - split; [discriminate | reflexivity].
+  - repeat constructor; unfold ex_page; rewrite len_app, len_repeat; reflexivity.
+  - reflexivity.
+  - split; [discriminate | reflexivity].
+  - split; reflexivity.
+Qed.
 
 Example C01_nonvacuous_rle :
   uncompress_rle (rle_encode [1; 0; 0; 0; 7; 7; 7; 7; 7; 2]) 10 = Some [1; 0; 0; 0; 7; 7; 7; 7; 7; 2]
